@@ -43,6 +43,14 @@ impl Interp {
             c.app_dir_preprocessor(|dir| {
                 std::fs::write(dir.join("added-by-preprocessor"), "x").unwrap();
                 let _ = std::fs::remove_file(dir.join("Procfile"));
+                // an existing file rewritten in place (same inode), appended to and made private
+                use std::io::Write as _;
+                use std::os::unix::fs::PermissionsExt as _;
+                let f = dir.join("sub/file");
+                std::fs::OpenOptions::new().write(true).truncate(true).open(&f).and_then(|mut h| h.write_all(b"rewritten")).unwrap();
+                std::fs::OpenOptions::new().append(true).open(&f).and_then(|mut h| h.write_all(b"+appended")).unwrap();
+                std::fs::set_permissions(&f, std::fs::Permissions::from_mode(0o600)).unwrap();
+                std::fs::set_permissions(dir.join("sub"), std::fs::Permissions::from_mode(0o700)).unwrap();
             });
         }
         c
